@@ -29,10 +29,12 @@ func (g *gram) mutate(seed string) (string, []string) {
 		return seed, nil
 	}
 	var ops []string
-	n := g.n(1, 3, "nmut")
+	n := g.n(1, 2, "nmut")
 	for m := 0; m < n && len(ts) > 0; m++ {
 		i := g.n(0, len(ts)-1, "pos")
-		op := g.n(0, 15, "mut")
+		// syntax-preserving operators (literal, identifier, function, wrap, expression) are drawn
+		// three times as often as the token-level ones, so that most mutants get past the parser
+		op := mutOps[g.n(0, len(mutOps)-1, "mut")]
 		switch op {
 		case 0:
 			ops = append(ops, "delete")
@@ -140,6 +142,8 @@ func (g *gram) mutate(seed string) (string, []string) {
 	}
 	return render(ts), ops
 }
+
+var mutOps = []int{0, 1, 2, 3, 4, 5, 6, 14, 7, 8, 9, 7, 8, 9, 10, 11, 10, 11, 10, 11, 12, 12, 12, 13, 13, 13, 15, 15, 15, 7, 10, 12}
 
 func nearest(ts []token, i int, ok func(token) bool) int {
 	for d := 0; d < len(ts); d++ {
